@@ -525,7 +525,7 @@ def run_check(prop, tier, seed, replay=None):
     spec = mod.SPEC
     needs = spec.get("needs", ["probe-rel"])
     if tier == "thorough":
-        needs = spec.get("needs_thorough", needs)
+        needs = list(dict.fromkeys(list(needs) + list(spec.get("needs_thorough", []))))
 
     binaries = {}
     try:
